@@ -48,7 +48,8 @@ type ppuModel struct {
 	enterFn  map[*ssa.Function]string // EnterMode2 / ExitMode2 by effect on corrupt
 	steps    map[ppuState]*ppuStep
 	scan     []scanFact
-	symLY    bool // evaluate steps with the published LY symbolic (not cached)
+	symLY    bool   // evaluate steps with the published LY symbolic (not cached)
+	lycConst *int64 // evaluate steps with LYC fixed to this value (not cached)
 }
 
 var ppuModelCache = map[*Ctx]*ppuModel{}
@@ -217,13 +218,13 @@ func (c *Ctx) ppuModel() *ppuModel {
 
 // step evaluates one machine-cycle step from a fixed timing state with everything else symbolic.
 func (m *ppuModel) step(s ppuState) *ppuStep {
-	if r, ok := m.steps[s]; ok && !m.symLY {
+	if r, ok := m.steps[s]; ok && !m.symLY && m.lycConst == nil {
 		return r
 	}
 	c := m.c
 	it := c.W.It
 	res := &ppuStep{From: s}
-	if !m.symLY {
+	if !m.symLY && m.lycConst == nil {
 		m.steps[s] = res
 	}
 	st := it.StateOn(c.W.Generic)
@@ -236,6 +237,9 @@ func (m *ppuModel) step(s ppuState) *ppuStep {
 	setI(".ly", s.LY)
 	if m.symLY {
 		c.symCell(st, m.PPU, ".ly") // the published line number is whatever a write to the read-only LY register left there
+	}
+	if m.lycConst != nil && ai.LeafTypeAt(m.PPU.T, ".lyc") != nil {
+		setI(".lyc", *m.lycConst)
 	}
 	st.SetCell(m.PPU, ".firstLine", ai.NewConstBool(s.FirstLine))
 	st.SetCell(m.PPU, m.Enabled, ai.NewConstBool(true))
